@@ -170,7 +170,7 @@ func runC03(c *core.Ctx, crashes bool) {
 			}
 		}
 	}
-	steps := 70 + ch.Int(100)
+	steps := (70 + ch.Int(100)) * c.Scale
 	for i := 0; i < steps; i++ {
 		c.Step("c03")
 		switch ch.Pick([]int{25, 35, 30, 5, 5}) {
